@@ -300,6 +300,7 @@ def showParts (parts : List (Name × List Sub1)) : String :=
 
 def Expr.show : Expr → String
   | .num n => toString n
+  | .real s => s
   | .bool b => if b then "true" else "false"
   | .str s => "\"" ++ s ++ "\""
   | .ref parts => showParts parts
